@@ -204,10 +204,10 @@ enum Op {
     /// ghost acknowledges the last message the device sent on that exchange
     GhostAck { sess: u8, exid: u16, init: bool },
     Wait(u32),
-    /// probe from the real controller node on a fresh exchange
-    ProbeA(u32),
+    /// probe from the real controller node on a fresh exchange (`attempts` = 2: retried once like a real peer)
+    ProbeA(u32, u8),
     /// probe from the ghost on a fresh exchange of ghost session `sess`
-    ProbeG { sess: u8, timeout: u32 },
+    ProbeG { sess: u8, timeout: u32, attempts: u8 },
 }
 
 struct ECase {
@@ -242,8 +242,10 @@ fn parse_e(f: &[&str]) -> ECase {
                         },
                         b'a' => Op::GhostAck { sess: p[0].parse().unwrap(), exid: p[1].parse().unwrap(), init: p[2] == "i" },
                         b'w' => Op::Wait(p[0].parse().unwrap()),
-                        b'p' => Op::ProbeA(p[0].parse().unwrap()),
-                        b'q' => Op::ProbeG { sess: p[0].parse().unwrap(), timeout: p[1].parse().unwrap() },
+                        b'p' => Op::ProbeA(p[0].parse().unwrap(), 1),
+                        b'P' => Op::ProbeA(p[0].parse().unwrap(), 2),
+                        b'q' => Op::ProbeG { sess: p[0].parse().unwrap(), timeout: p[1].parse().unwrap(), attempts: 1 },
+                        b'Q' => Op::ProbeG { sess: p[0].parse().unwrap(), timeout: p[1].parse().unwrap(), attempts: 2 },
                         _ => continue,
                     };
                     c.script.push(op);
@@ -515,12 +517,12 @@ fn run_e(case: &ECase) -> String {
                         ghost_send(sess, exid, init, false, ack, 'a', &[]);
                     }
                     Op::Wait(ms) => Timer::after(Duration::from_millis(ms as u64)).await,
-                    Op::ProbeA(timeout) => {
+                    Op::ProbeA(timeout, attempts) => {
                         // like a real peer: a second attempt on a fresh exchange if the first one fails
                         let t0 = Instant::now();
                         let p = mk_payload(1, i as u32, 0, 0xffff, true, 0);
                         let mut res = String::new();
-                        for _attempt in 0..2 {
+                        for _attempt in 0..attempts {
                             let r = e2e::with_timeout(timeout as u64, async {
                                 let mut ex = Exchange::initiate(&matter_a, &crypto, NonZeroU8::new(1).unwrap(), B_NODE).await?;
                                 ex.send(MessageMeta::new(PROTO, 1, true), &p).await?;
@@ -544,10 +546,11 @@ fn run_e(case: &ECase) -> String {
                         }
                         probes.borrow_mut().push(res);
                     }
-                    Op::ProbeG { sess, timeout } => {
+                    Op::ProbeG { sess, timeout, attempts } => {
                       let t00 = Instant::now();
                       let mut res = "unanswered".to_string();
-                      for _attempt in 0..2 {
+                      let snf_before = net.tap().iter().filter(|t| t.src == B && t.dst == G && classify(&crypto, &t.bytes, B_NODE) == "snf").count();
+                      for _attempt in 0..attempts {
                         fresh_exid += 1;
                         let exid = fresh_exid;
                         let t0 = Instant::now();
@@ -573,6 +576,14 @@ fn run_e(case: &ECase) -> String {
                         if res == "ok" {
                             break;
                         }
+                      }
+                      if res != "ok" {
+                          // refused, not ignored: the device answered SessionNotFound (the session was marked
+                          // expired by an earlier give-up of the device's own retransmissions)
+                          let snf_after = net.tap().iter().filter(|t| t.src == B && t.dst == G && classify(&crypto, &t.bytes, B_NODE) == "snf").count();
+                          if snf_after > snf_before {
+                              res = "expired".to_string();
+                          }
                       }
                       probes.borrow_mut().push(format!("{}:{}", res, t00.elapsed().as_millis()));
                     }
@@ -616,12 +627,35 @@ fn run_e(case: &ECase) -> String {
         *out.entry(k).or_insert(0) += 1;
     }
     let outs: Vec<String> = out.iter().map(|(k, v)| format!("{}={}", k, v)).collect();
+    // every reliable opener of the ghost must have been answered on its exchange (acknowledgement,
+    // reply) or its session told to close / not found
+    let dev_out: Vec<(u16, u16, String)> = net
+        .tap()
+        .iter()
+        .filter(|t| t.src == B && t.dst == G)
+        .filter_map(|t| decode(&crypto, &t.bytes, B_NODE).map(|(h, _)| (h.plain.sess_id, h.proto.exch_id, classify(&crypto, &t.bytes, B_NODE))))
+        .collect();
+    let mut unacked = 0;
+    for op in case.script.iter() {
+        if let Op::Ghost { sess, exid, init: true, rel: true, op: 'o' | 'n', .. } = op {
+            let peer_sess = 20 + *sess as u16;
+            let answered = dev_out.iter().any(|(s, e, c)| (*s == peer_sess && *e == *exid) || (*s == peer_sess && c.starts_with("close")) || c == "snf");
+            // an exchange still owned by a live handler may acknowledge later
+            let ft = final_tables.borrow();
+            let seg = ft.split('L').find(|x| x.starts_with(&format!("{}[", local_sess_id(*sess)))).unwrap_or("").to_string();
+            let still_owned = seg.contains(&format!("[{}/R/o/", exid)) || seg.contains(&format!(",{}/R/o/", exid));
+            if !answered && !still_owned {
+                unacked += 1;
+            }
+        }
+    }
     format!(
-        "{} probes={} deliv={} xdrop={} tables={} | out={}",
+        "{} probes={} deliv={} xdrop={} unacked={} tables={} | out={}",
         outcome,
         probes.borrow().join(","),
         deliv.join(","),
         log.accepted_dropped.get(),
+        unacked,
         tables.join(""),
         outs.join(",")
     )
